@@ -162,8 +162,13 @@ def configure_union_passthrough(union: Any, converter: BaseConverter) -> None:
 
     def make_structure_native_union(exact_type: Any) -> Callable:
         # `exact_type` is likely to be a subset of the entire configured union (`args`).
+        # Literals are matched by class *and* value, per literal: `1 == True` and
+        # `0 == False`, so values and classes cannot be checked independently.
         literal_values = {
-            v for t in exact_type.__args__ if is_literal(t) for v in t.__args__
+            (v.__class__, v)
+            for t in exact_type.__args__
+            if is_literal(t)
+            for v in t.__args__
         }
 
         # We have no idea what the actual type of `val` will be, so we can't
@@ -212,7 +217,7 @@ def configure_union_passthrough(union: Any, converter: BaseConverter) -> None:
                 converter=converter,
                 spillover=spillover_type,
             ) -> exact_type:
-                if val.__class__ in literal_classes and val in vals:
+                if val.__class__ in literal_classes and (val.__class__, val) in vals:
                     return val
                 if val.__class__ in classes:
                     return val
@@ -223,7 +228,7 @@ def configure_union_passthrough(union: Any, converter: BaseConverter) -> None:
             def structure_native_union(
                 val: Any, _: Any, classes=non_literal_classes, vals=literal_values
             ) -> exact_type:
-                if val.__class__ in literal_classes and val in vals:
+                if val.__class__ in literal_classes and (val.__class__, val) in vals:
                     return val
                 if val.__class__ in classes:
                     return val
